@@ -1,12 +1,33 @@
-"""C01 — every 1-D quadrature rule is exact on its polynomial class, for every size.  (work in progress header)
+"""C01 — every 1-D quadrature rule is exact on its polynomial class, for every size.
+
+gen:    scalar leaves of src/grid/onedgrid.py are re-translated on every run (props/c01_translate.py on top of
+        vlib/py2coq_real, fail closed): _g2, _derg2, _g3, _derg3, _gstrip, _dergstrip (masked branches), the
+        points/weights formulas of the seven variable-substitution constructors as functions of the real index
+        variable, the weight rescalings and reversal flags of the library-based Gauss constructors; the structure of
+        the six Trefethen wrappers is checked verbatim.  -> build/C01/C01_gen.v
+prove:  coq/C01/*.v: index-function hand models pts_<Rule> n k / wts_<Rule> n k mirroring the loop bounds and series
+        truncation indices of the array code, theorems for every n (see C01_props_*.v).
+tie:    `interval` enclosures (1e-9 (1+|y|)) of every model node and weight around the implementation's value, all k,
+        n = 2..12 (quick) / plus a sample up to 60 (thorough), random dyadic extra parameters; leaves at the float
+        arguments the constructors feed them; exact float equality for the compositions (Trefethen wrappers,
+        library arrays passed through).
+search: the property's own oracle on the implementation, independent of the model: mpmath moments against the exact
+        integrals for all degrees up to the nominal one, n <= 24 (quick) / 64 (thorough); number of nodes, ascending,
+        inside the domain; weights against step * mpmath.diff of the documented node maps.
 """
 from __future__ import annotations
 
 import ast
+import importlib
+import math
+import warnings
+from fractions import Fraction
+
+import numpy as np
 
 from props import c01_translate as T
 from vlib import py2coq_real as P
-from vlib.core import SRC, Ctx
+from vlib.core import SRC, Ctx, r_lit
 
 SUBST = ["TanhSinh", "ExpSinh", "LogExpSinh", "ExpExp", "SingleTanh", "SingleExp", "SingleArcSinhExp"]
 ORACLE = ["GaussLaguerre", "GaussLegendre", "GaussChebyshev", "GaussChebyshevType2"]
@@ -15,8 +36,25 @@ PLAIN = ["UniformInteger", "GaussChebyshevLobatto", "Trapezoidal", "RectangleRul
 TREF = ["TrefethenCC", "TrefethenGC2", "TrefethenGeneral"]
 STRIP = ["TrefethenStripCC", "TrefethenStripGC2", "TrefethenStripGeneral"]
 LEAF_FUNCS = [("_g2", "g2"), ("_derg2", "derg2"), ("_g3", "g3"), ("_derg3", "derg3"), ("_gstrip", "gstrip")]
+DOMAINS = {  # declared domain of every class (hand model side; compared with the source and the objects)
+    "GaussLaguerre": ("0", "np.inf"), "GaussLegendre": ("-1", "1"), "GaussChebyshev": ("-1", "1"),
+    "UniformInteger": ("0", "np.inf"), "GaussChebyshevType2": ("-1", "1"), "GaussChebyshevLobatto": ("-1", "1"),
+    "Trapezoidal": ("-1", "1"), "RectangleRuleSineEndPoints": ("-1", "1"), "TanhSinh": ("-1", "1"), "Simpson": ("-1", "1"),
+    "MidPoint": ("-1", "1"), "ClenshawCurtis": ("-1", "1"), "FejerFirst": ("-1", "1"), "FejerSecond": ("-1", "1"),
+    "TrefethenCC": ("-1", "1"), "TrefethenGC2": ("-1", "1"), "TrefethenGeneral": ("-1", "1"),
+    "TrefethenStripCC": ("-1", "1"), "TrefethenStripGC2": ("-1", "1"), "TrefethenStripGeneral": ("-1", "1"),
+    "ExpSinh": ("0", "np.inf"), "LogExpSinh": ("0", "np.inf"), "ExpExp": ("0", "np.inf"), "SingleTanh": ("-1", "1"),
+    "SingleExp": ("0", "np.inf"), "SingleArcSinhExp": ("0", "np.inf"),
+}
+KNOWN = {  # canonical witnesses of the two genuine defects (Coq: fejer1_exact_refuted / fejer2_exact_refuted)
+    "FejerFirst": ("fejer1_exact_refuted", "FejerFirst(3):degree=2"),
+    "FejerSecond": ("fejer2_exact_refuted", "FejerSecond(3):degree=2"),
+}
+MAXREP = 3
+TOL_REL = 1e-10  # moments: |sum - exact| <= TOL_REL * sum |w_i g(x_i)|  (measured rounding noise <= 3e-13 for n <= 64)
 
 
+# ====================================================================================================== gen
 def gen(ctx: Ctx):
     src = (SRC / "onedgrid.py").read_text()
     tree = ast.parse(src)
@@ -60,12 +98,582 @@ def gen(ctx: Ctx):
         inf = T.trefethen_ctor(src, classes[c], c in STRIP)
         info[c] = inf
         units.append(T.unit(src, T._init_of(classes[c]), f"{c}.__init__", kind="composition checked verbatim"))
+    for c, inf in info.items():
+        if tuple(inf["domain"]) != DOMAINS[c]:
+            raise P.Unsupported(f"{c}: declared domain {inf['domain']} differs from the modelled {DOMAINS[c]}")
     ctx.gen("C01_gen.v", "\n".join(out) + "\n", units)
     return info
 
 
+# ====================================================================================================== Coq side
+MODEL_NAMES = """pts_Trapezoidal wts_Trapezoidal pts_MidPoint wts_MidPoint pts_Simpson wts_Simpson pts_UniformInteger
+ wts_UniformInteger rrs_x pts_RectangleRuleSineEndPoints wts_RectangleRuleSineEndPoints pts_GaussChebyshevLobatto
+ wts_GaussChebyshevLobatto chebgauss_x chebgauss_w pts_GaussChebyshev wts_GaussChebyshev cc_theta cc_jmed cc_bj cc_wi
+ pts_ClenshawCurtis wts_ClenshawCurtis f1_theta f1_nsum f1_di pts_FejerFirst wts_FejerFirst f2_theta f2_nsum f2_wi
+ pts_FejerSecond wts_FejerSecond rsum rev maybe_rev halve_ends
+ pts_GaussLegendre wts_GaussLegendre pts_GaussChebyshevType2 wts_GaussChebyshevType2 pts_GaussLaguerre wts_GaussLaguerre
+ GaussChebyshev_points_reversed GaussChebyshev_weights_reversed GaussChebyshev_weights
+ GaussLegendre_points_reversed GaussLegendre_weights_reversed GaussLegendre_weights
+ GaussChebyshevType2_points_reversed GaussChebyshevType2_weights_reversed GaussChebyshevType2_weights
+ GaussLaguerre_points_reversed GaussLaguerre_weights_reversed GaussLaguerre_weights
+ kidx pts_TanhSinh wts_TanhSinh pts_ExpSinh wts_ExpSinh pts_LogExpSinh wts_LogExpSinh pts_ExpExp wts_ExpExp
+ pts_SingleTanh wts_SingleTanh pts_SingleExp wts_SingleExp pts_SingleArcSinhExp wts_SingleArcSinhExp
+ TanhSinh_points TanhSinh_weights ExpSinh_points ExpSinh_weights LogExpSinh_points LogExpSinh_weights
+ ExpExp_points ExpExp_weights SingleTanh_points SingleTanh_weights SingleExp_points SingleExp_weights
+ SingleArcSinhExp_points SingleArcSinhExp_weights tanh sinh cosh arcsinh
+ tref_pts tref_wts pts_TrefethenCC wts_TrefethenCC g2 derg2 g3 derg3
+ lst nth Nat.eqb Nat.sub Nat.add Nat.mul Nat.leb Nat.ltb Nat.odd Nat.even Nat.div Nat.divmod fst snd negb andb orb"""
+
+
+def header(defs):
+    names = " ".join(MODEL_NAMES.split()) + " " + " ".join(n for n, _ in defs)
+    return ("From Coq Require Import Reals Arith Bool List Lra.\nFrom Interval Require Import Tactic.\n"
+            "From P Require Import C01_gen C01_model.\nImport ListNotations.\nOpen Scope R_scope.\n"
+            "Definition lst (l : list R) (k : nat) : R := nth k l 0.\n"
+            + "\n".join(f"Definition {n} : nat -> R := lst [{body}]." for n, body in defs) + "\n"
+            f"Ltac ev := cbv [{names}]; cbv zeta; rewrite ?INR_IZR_INZ; cbv [Z.of_nat Pos.of_succ_nat Pos.succ].\n"
+            "Ltac fin := interval with (i_prec 64).\n"
+            "Lemma asin_m1 : asin (-1) = - (PI / 2).\n"
+            "Proof. replace (-1) with (Ropp 1) by lra. rewrite asin_opp, asin_1. reflexivity. Qed.\n"
+            "Ltac strip_in S := cbv [gstrip dergstrip]; cbv zeta; rewrite ?(asin_atan S) by lra; unfold Rsqr.\n"
+            "Ltac strip_p1 := cbv [gstrip dergstrip]; cbv zeta; replace (asin (1 / 1)) with (PI / 2) by (replace (1 / 1) with 1 by lra; symmetry; apply asin_1).\n"
+            "Ltac strip_m1 := cbv [gstrip dergstrip]; cbv zeta; replace (asin (-1 / 1)) with (- (PI / 2)) by (replace (-1 / 1) with (-1) by lra; symmetry; apply asin_m1).\n"
+            "Ltac mask_true := match goal with |- context [Rle_dec ?a ?b] => destruct (Rle_dec a b) as [HM|HM]; [|exfalso; apply HM; unfold tanh, sinh, cosh; fin] end.\n"
+            "Ltac mask_false := match goal with |- context [Rle_dec ?a ?b] => destruct (Rle_dec a b) as [HM|HM]; [exfalso; revert HM; apply Rlt_not_le; fin|] end.\n")
+
+
+def rl(x) -> str:
+    """Exact real literal of a float in the form (IZR a / IZR b) (always a quotient, so tactics can match it)."""
+    fr = Fraction(float(x))
+    return f"({fr.numerator} / {fr.denominator})"
+
+
+def tol_lit(y, rel=1e-9) -> str:
+    t = Fraction(int((1 + abs(float(y))) * 1024) + 1, 1024) * Fraction(rel).limit_denominator(10 ** 15)
+    return f"({t.numerator} / {t.denominator})"
+
+
+def goal_close(term, y):
+    return f"Rabs ({term} - {rl(y)}) <= {tol_lit(y)}"
+
+
+# ====================================================================================================== oracles
+def mp():
+    import mpmath
+
+    mpmath.mp.dps = 50
+    return mpmath
+
+
+def int_legendre(d):
+    m = mp()
+    return m.mpf(0) if d % 2 else m.mpf(2) / (d + 1)
+
+
+def int_cheb1(d):  # int x^d / sqrt(1-x^2)
+    m = mp()
+    return m.mpf(0) if d % 2 else m.beta(m.mpf(d + 1) / 2, m.mpf(1) / 2)
+
+
+def int_cheb2(d):  # int x^d sqrt(1-x^2)
+    m = mp()
+    return m.mpf(0) if d % 2 else m.beta(m.mpf(d + 1) / 2, m.mpf(3) / 2)
+
+
+def moment(pts, wts, d, g=None):
+    m = mp()
+    s, S = m.mpf(0), m.mpf(0)
+    for x, w in zip(pts, wts):
+        x, w = m.mpf(float(x)), m.mpf(float(w))
+        t = w * x ** d * (g(x) if g is not None else 1)
+        s += t
+        S += abs(t)
+    return s, S
+
+
+def asin_taylor_map(d):
+    """Normalised odd Taylor polynomial of arcsin of degree d (Hale & Trefethen): coefficients as Fractions."""
+    cs = []
+    for j in range((d + 1) // 2):
+        cs.append(Fraction(math.factorial(2 * j), 4 ** j * math.factorial(j) ** 2 * (2 * j + 1)))
+    tot = sum(cs)
+    return [c / tot for c in cs]  # coefficient of x^(2j+1)
+
+
+def node_maps():
+    m = mp()
+    half_pi = lambda: m.pi / 2  # noqa: E731
+    return {
+        "TanhSinh": lambda t: m.tanh(half_pi() * m.sinh(t)),
+        "ExpSinh": lambda t: m.exp(half_pi() * m.sinh(t)),
+        "LogExpSinh": lambda t: m.log(m.exp(half_pi() * m.sinh(t)) + 1),
+        "ExpExp": lambda t: m.exp(t) * m.exp(-m.exp(-t)),
+        "SingleTanh": lambda t: m.tanh(t),
+        "SingleExp": lambda t: m.exp(t),
+        "SingleArcSinhExp": lambda t: m.asinh(m.exp(t)),
+    }
+
+
+def gstrip_mp(rho):
+    """Hale-Trefethen strip map, written from the paper's formula in mpmath (independent of the implementation)."""
+    m = mp()
+    tau = m.pi / m.log(rho)
+    d = m.mpf(1) / 2 + 1 / (m.exp(tau * m.pi) + 1)
+    c = 1 / (m.log(1 + m.exp(-tau * m.pi)) - m.log(2) + m.pi * tau * d / 2)
+
+    def g(s):
+        u = m.asin(s)
+        return c * (m.log(1 + m.exp(-tau * (m.pi / 2 + u))) - m.log(1 + m.exp(-tau * (m.pi / 2 - u))) + d * tau * u)
+
+    return g
+
+
+# ====================================================================================================== run
+class Rep:
+    """Collect failures, report the smallest MAXREP per obligation."""
+
+    def __init__(self, ctx):
+        self.ctx = ctx
+        self.items = []
+
+    def add(self, size, ob, key, obs, text, rp=None, found=True):
+        self.items.append((size, ob, key, obs, text, rp or {}, found))
+
+    def flush(self):
+        per = {}
+        for size, ob, key, obs, text, rp, found in sorted(self.items, key=lambda t: (t[0], t[2])):
+            per[ob] = per.get(ob, 0) + 1
+            if per[ob] <= MAXREP:
+                self.ctx.fail(ob, key, obs, text, rp, found_input=found)
+        if self.items:
+            self.ctx.notes.append(f"{len(self.items)} disagreements; at most {MAXREP} reported per obligation: {per}")
+
+
+def dyadic(rng, lo, hi, bits=6):
+    q = 1 << bits
+    return rng.randint(int(math.ceil(lo * q)), int(math.floor(hi * q))) / q
+
+
+def sizes(ctx, odd_only=False, lo=2):
+    ns = list(range(lo, 13))
+    if not ctx.quick:
+        ns += [13, 16, 17, 24, 25, 33, 40, 41, 59, 60]
+    if odd_only:
+        ns = sorted({n for n in ns if n % 2 == 1} | ({1} if lo <= 1 else set()))
+    return ns
+
+
+def build(cls, *a):
+    with warnings.catch_warnings():
+        warnings.simplefilter("ignore")
+        return cls(*a)
+
+
 def run(ctx: Ctx):
+    import grid.basegrid as gb
+    import grid.onedgrid as og
+
+    importlib.reload(gb)
+    importlib.reload(og)
+    from scipy.special import roots_chebyu, roots_genlaguerre
+
     info = gen(ctx)
     ctx.copy_coq("C01")
     status = ctx.coq_build()
     ctx.register_props(status)
+    if not status.get("C01_model.v", False) or not status.get("C01_gen.v", False):
+        raise RuntimeError("C01 model does not compile: " + (ctx.logs.get("C01_model.v", "") + ctx.logs.get("C01_gen.v", ""))[-600:])
+    rep = Rep(ctx)
+    rng = ctx.rng
+    import time as _t
+    tm = {'build': round(_t.time() - ctx.t0, 1)}
+    t_last = [_t.time()]
+
+    def mark(name):
+        tm[name] = round(_t.time() - t_last[0], 1)
+        t_last[0] = _t.time()
+    defs: list[tuple[str, str]] = []   # named literal arrays (library outputs)
+    cases: list[tuple[str, str]] = []  # (goal, tactic)
+    meta: list[dict] = []
+    m = mp()
+
+    def case(goal, tac, **kw):
+        cases.append((goal, tac))
+        meta.append(kw)
+
+    def lit_array(prefix, arr):
+        name = f"{prefix}_{len(defs)}"
+        defs.append((name, "; ".join(rl(v) for v in arr)))
+        return name
+
+    def finite(arr):
+        return bool(np.all(np.isfinite(np.asarray(arr, dtype=float))))
+
+    # ------------------------------------------------------------------ shape oracle (implementation only)
+    def check_shape(cname, args_txt, g, n):
+        key0 = f"{cname}({args_txt})"
+        pts, wts = np.asarray(g.points, dtype=float), np.asarray(g.weights, dtype=float)
+        lo, hi = DOMAINS[cname]
+        lo_v, hi_v = float(lo), (math.inf if hi == "np.inf" else float(hi))
+        dom = g.domain
+        ctx.case(("shape", key0))
+        if len(pts) != n or len(wts) != n:
+            rep.add(n, "corr_shape_count", f"{key0}:count", [len(pts), len(wts)], f"{key0} returns {len(pts)} nodes / {len(wts)} weights, expected {n}",
+                    {"reproduce": f"len({key0}.points)"})
+            return False
+        if dom is None or float(dom[0]) != lo_v or float(dom[1]) != hi_v:
+            rep.add(n, "corr_shape_domain", f"{key0}:domain", str(dom), f"{key0}.domain is {dom}, the documented domain is ({lo}, {hi})", {"reproduce": f"{key0}.domain"})
+        if not finite(pts) or not finite(wts):
+            rep.add(n, "corr_shape_finite", f"{key0}:finite", None, f"{key0} has non-finite nodes or weights", {"reproduce": key0})
+            return False
+        bad = [i for i in range(n - 1) if not pts[i] < pts[i + 1]]
+        if bad:
+            i = bad[0]
+            rep.add(n, "shape_ascending", f"{key0}:ascending", [float(pts[i]), float(pts[i + 1])],
+                    f"{key0}: nodes not strictly ascending at index {i}: {pts[i]!r}, {pts[i + 1]!r}", {"reproduce": f"np.diff({key0}.points)", "index": i})
+        out = [i for i in range(n) if pts[i] < lo_v - 1e-14 or pts[i] > hi_v + 1e-14]
+        if out:
+            i = out[0]
+            rep.add(n, "shape_in_domain", f"{key0}:domain:{i}", float(pts[i]), f"{key0}: node {i} = {pts[i]!r} outside ({lo}, {hi})", {"reproduce": f"{key0}.points[{i}]"})
+        return True
+
+    # ------------------------------------------------------------------ exactness oracle (implementation only)
+    def check_moments(cname, args_txt, g, n, deg, exact, weightfn=None, what="x^d"):
+        key0 = f"{cname}({args_txt})"
+        nbad = 0
+        for d in range(deg + 1):
+            s, S = moment(g.points, g.weights, d, weightfn)
+            e = exact(d)
+            ctx.case(("moment", key0, d))
+            if abs(s - e) > TOL_REL * max(S, m.mpf(10) ** -300) + m.mpf(10) ** -300:
+                nbad += 1
+                if cname in KNOWN and not args_txt.count(","):
+                    pred = (n % 2 == 1 and n >= 3 and d == n - 1) if cname == "FejerFirst" else (n >= 2 and d == 2 * ((n + 1) // 2 - 1))
+                    if pred:
+                        ob, kkey = KNOWN[cname]
+                        if f"{cname}({n}):degree={d}" == kkey:
+                            rep.add(0, ob, kkey, round(float(s), 9),
+                                    f"{key0}: sum w_i x_i^{d} = {float(s):.12g}, integral of x^{d} over [-1,1] = {float(e):.12g} "
+                                    f"(series of the weights stops one term early; same defect at every "
+                                    f"{'odd n >= 3, degree n-1' if cname == 'FejerFirst' else 'n >= 2, degree 2*((n+1)//2-1)'})",
+                                    {"rule": cname, "n": n, "degree": d, "expected": float(e), "reproduce": f"g={cname}({n}); (g.weights*g.points**{d}).sum()"})
+                        ctx.count(f"known-defect:{cname}")
+                        continue
+                rep.add(n * 1000 + d, f"exact_{cname}", f"{key0}:degree={d}", round(float(s), 9),
+                        f"{key0}: sum w_i {what.replace('d', str(d))} (x_i) = {float(s):.15g}, exact integral {float(e):.15g} (|diff| = {float(abs(s - e)):.3g}, rounding allowance {float(TOL_REL * S):.3g})",
+                        {"rule": cname, "args": args_txt, "n": n, "degree": d, "expected": float(e), "kind": "moment",
+                         "reproduce": f"g={key0}; sum(g.weights * weight(g.points) * g.points**{d})"})
+        return nbad
+
+    # ================================================================== closed-form rules
+    plain_specs = [
+        ("Trapezoidal", og.Trapezoidal, False, 1), ("MidPoint", og.MidPoint, False, 1), ("Simpson", og.Simpson, True, 3),
+        ("UniformInteger", og.UniformInteger, False, None), ("RectangleRuleSineEndPoints", og.RectangleRuleSineEndPoints, False, None),
+        ("GaussChebyshevLobatto", og.GaussChebyshevLobatto, False, None), ("GaussChebyshev", og.GaussChebyshev, False, "cheb1"),
+        ("ClenshawCurtis", og.ClenshawCurtis, False, "n-1"), ("FejerFirst", og.FejerFirst, False, "n-1"), ("FejerSecond", og.FejerSecond, False, "n-1"),
+    ]
+    nmax_m = 24 if ctx.quick else 64
+    for cname, cls, odd, deg in plain_specs:
+        for n in sizes(ctx, odd_only=odd, lo=3 if odd else 2):
+            g = build(cls, n)
+            if not check_shape(cname, str(n), g, n):
+                continue
+            ctx.count(f"tie:{cname}")
+            for k in range(n):
+                case(goal_close(f"pts_{cname} {n} {k}", g.points[k]), "ev; fin", rule=cname, n=n, k=k, what="points", args=str(n))
+                case(goal_close(f"wts_{cname} {n} {k}", g.weights[k]), "ev; fin", rule=cname, n=n, k=k, what="weights", args=str(n))
+                ctx.case(("tie", cname, n, k), traces=2)
+        if deg is None:
+            continue
+        for n in range(3 if odd else 2, nmax_m + 1):
+            if odd and n % 2 == 0:
+                continue
+            g = build(cls, n)
+            if deg == "cheb1":
+                check_moments(cname, str(n), g, n, 2 * n - 1, int_cheb1, lambda x: 1 / m.sqrt(1 - x * x), what="x^d/sqrt(1-x^2)")
+            else:
+                check_moments(cname, str(n), g, n, (n - 1) if deg == "n-1" else deg, int_legendre)
+
+    mark('closed_form')
+    # ================================================================== library-based Gauss rules
+    def oracle_validate(name, ox, ow, n, exact, key):
+        """Hypothesis of gauss_wrappers: the library rule is exact to degree 2n-1 for its weight function."""
+        for d in range(2 * n):
+            s, S = moment(ox, ow, d)
+            ctx.case(("oracle", key, d))
+            if abs(s - exact(d)) > TOL_REL * S:
+                rep.add(n * 1000 + d, f"oracle_{name}", f"{key}:degree={d}", round(float(s), 9),
+                        f"oracle hypothesis violated: {key} is not exact for degree {d} (sum {float(s):.15g}, exact {float(exact(d)):.15g})",
+                        {"reproduce": key, "degree": d})
+                return
+
+    gl_sizes = sizes(ctx)
+    for n in gl_sizes:
+        g = build(og.GaussLegendre, n)
+        ox, ow = np.polynomial.legendre.leggauss(n)
+        if check_shape("GaussLegendre", str(n), g, n):
+            a, b = lit_array("lx", ox), lit_array("lw", ow)
+            for k in range(n):
+                case(goal_close(f"pts_GaussLegendre {a} {n} {k}", g.points[k]), "ev; fin", rule="GaussLegendre", n=n, k=k, what="points", args=str(n))
+                case(goal_close(f"wts_GaussLegendre {a} {b} {n} {k}", g.weights[k]), "ev; fin", rule="GaussLegendre", n=n, k=k, what="weights", args=str(n))
+                ctx.case(("tie", "GaussLegendre", n, k), traces=2)
+        g2 = build(og.GaussChebyshevType2, n)
+        ux, uw = roots_chebyu(n)
+        if check_shape("GaussChebyshevType2", str(n), g2, n):
+            a, b = lit_array("ux", ux), lit_array("uw", uw)
+            for k in range(n):
+                case(goal_close(f"pts_GaussChebyshevType2 {a} {n} {k}", g2.points[k]), "ev; fin", rule="GaussChebyshevType2", n=n, k=k, what="points", args=str(n))
+                case(goal_close(f"wts_GaussChebyshevType2 {a} {b} {n} {k}", g2.weights[k]), "ev; fin", rule="GaussChebyshevType2", n=n, k=k, what="weights", args=str(n))
+                ctx.case(("tie", "GaussChebyshevType2", n, k), traces=2)
+    alphas = [0.0, 0.5, -0.75] + [dyadic(rng, -0.9, 6.0, 3) for _ in range(1 if ctx.quick else 3)]
+    for ai, al in enumerate(alphas):
+        for n in [x for x in gl_sizes if x <= 12 or x in (16, 25)]:
+            if ctx.quick and ai in (1, 2) and n not in (2, 5, 8):
+                continue
+            g = build(og.GaussLaguerre, n, al)
+            lx, lw = roots_genlaguerre(n, al)
+            args = f"{n}, {al!r}"
+            if check_shape("GaussLaguerre", args, g, n):
+                a, b = lit_array("gx", lx), lit_array("gw", lw)
+                for k in range(n):
+                    case(goal_close(f"pts_GaussLaguerre {a} {rl(al)} {n} {k}", g.points[k]), "ev; fin", rule="GaussLaguerre", n=n, k=k, what="points", args=args)
+                    case(goal_close(f"wts_GaussLaguerre {a} {b} {rl(al)} {n} {k}", g.weights[k]), "ev; fin", rule="GaussLaguerre", n=n, k=k, what="weights", args=args)
+                    ctx.case(("tie", "GaussLaguerre", n, al, k), traces=2)
+    nmax_o = 24 if ctx.quick else 40
+    for n in range(2, nmax_o + 1):
+        ox, ow = np.polynomial.legendre.leggauss(n)
+        oracle_validate("leggauss", ox, ow, n, int_legendre, f"np.polynomial.legendre.leggauss({n})")
+        ux, uw = roots_chebyu(n)
+        oracle_validate("roots_chebyu", ux, uw, n, int_cheb2, f"scipy.special.roots_chebyu({n})")
+        if not (np.all(np.diff(ox) > 0) and np.all(np.abs(ox) < 1) and np.all(np.diff(ux) > 0) and np.all(np.abs(ux) < 1)):
+            rep.add(n, "oracle_nodes", f"oracle-nodes:{n}", None, f"library nodes for n={n} are not ascending inside (-1,1)", {})
+        check_moments("GaussLegendre", str(n), build(og.GaussLegendre, n), n, 2 * n - 1, int_legendre)
+        check_moments("GaussChebyshevType2", str(n), build(og.GaussChebyshevType2, n), n, 2 * n - 1, int_cheb2, lambda x: m.sqrt(1 - x * x), what="sqrt(1-x^2) x^d")
+    for al in alphas + [2.25, 7.5]:
+        for n in range(2, nmax_o + 1, 1 if ctx.quick is False else 3):
+            lx, lw = roots_genlaguerre(n, al)
+            oracle_validate("roots_genlaguerre", lx, lw, n, lambda d, al=al: m.gamma(d + m.mpf(al) + 1), f"scipy.special.roots_genlaguerre({n}, {al!r})")
+            if not (np.all(np.diff(lx) > 0) and np.all(lx > 0)):
+                rep.add(n, "oracle_nodes", f"oracle-nodes-laguerre:{n}:{al}", None, f"roots_genlaguerre({n},{al}) nodes are not ascending in (0,inf)", {})
+            g = build(og.GaussLaguerre, n, al)
+            check_moments("GaussLaguerre", f"{n}, {al!r}", g, n, 2 * n - 1, lambda d, al=al: m.gamma(d + m.mpf(al) + 1),
+                          lambda x, al=al: x ** m.mpf(al) * m.exp(-x), what="x^alpha exp(-x) x^d")
+
+    mark('gauss')
+    # ================================================================== variable-substitution rules
+    maps = node_maps()
+    for cname in SUBST:
+        cls = getattr(og, cname)
+        pname = info[cname]["extras"][0]
+        dflt = info[cname]["defaults"][pname]
+        for n in sizes(ctx, odd_only=True, lo=3 if cname == "TanhSinh" else 1):
+            mhalf = (n - 1) // 2
+            hmax = min(1.0, 2.5 / max(mhalf, 1))
+            hs = [dyadic(rng, hmax / 8, hmax, 6)]
+            if float(dflt) * mhalf <= 2.5:
+                hs.append(float(dflt))
+            for h in hs:
+                g = build(cls, n, h)
+                args = f"{n}, {h!r}"
+                if not check_shape(cname, args, g, n):
+                    continue
+                ctx.count(f"tie:{cname}")
+                for k in range(n):
+                    case(goal_close(f"pts_{cname} {rl(h)} {n} {k}", g.points[k]), "ev; fin", rule=cname, n=n, k=k, what="points", args=args)
+                    case(goal_close(f"wts_{cname} {rl(h)} {n} {k}", g.weights[k]), "ev; fin", rule=cname, n=n, k=k, what="weights", args=args)
+                    ctx.case(("tie", cname, n, h, k), traces=2)
+                    # property oracle: documented node map and step * derivative
+                    t = m.mpf(k - mhalf) * m.mpf(h)
+                    x_ref = maps[cname](t)
+                    w_ref = m.mpf(h) * m.diff(maps[cname], t)
+                    if abs(m.mpf(float(g.points[k])) - x_ref) > 1e-11 * (1 + abs(x_ref)):
+                        rep.add(n, f"subst_{cname}", f"{cname}({args}):node:{k}", float(g.points[k]),
+                                f"{cname}({args}): node {k} = {g.points[k]!r}, documented node map gives {float(x_ref)!r}",
+                                {"rule": cname, "args": args, "k": k, "expected": float(x_ref), "kind": "subst-node"})
+                    if abs(m.mpf(float(g.weights[k])) - w_ref) > 1e-9 * (1 + abs(w_ref)):
+                        rep.add(n, f"subst_{cname}", f"{cname}({args}):weight:{k}", float(g.weights[k]),
+                                f"{cname}({args}): weight {k} = {g.weights[k]!r}, step * derivative of the node map = {float(w_ref)!r}",
+                                {"rule": cname, "args": args, "k": k, "expected": float(w_ref), "kind": "subst-weight"})
+
+    mark('subst')
+    # ================================================================== Trefethen maps
+    leaf_pts = set()
+
+    def leaf_case(fname, arg_txt, x, y, tac, **kw):
+        case(goal_close(f"{fname} {arg_txt}{rl(x)}", y), tac, **kw)
+
+    def strip_tactic(s, which):
+        if abs(s) == 1.0:
+            pre = "strip_p1" if s > 0 else "strip_m1"
+            return f"{pre}; " + ("mask_true; " if which == "d" else "") + "unfold tanh, sinh, cosh; fin"
+        near = abs(abs(s) - 1.0) <= 1e-8
+        pre = f"strip_in {rl(s)}"
+        if which == "d":
+            pre += "; " + ("mask_true" if near else "mask_false")
+        return pre + "; unfold tanh, sinh, cosh; fin"
+
+    base_rules = [("ClenshawCurtis", og.ClenshawCurtis), ("GaussChebyshevType2", og.GaussChebyshevType2)]
+    general_bases = [("GaussLegendre", og.GaussLegendre), ("FejerFirst", og.FejerFirst), ("MidPoint", og.MidPoint)]
+    tref_sizes = [n for n in sizes(ctx) if n <= 12] + ([25] if not ctx.quick else [])
+    for n in tref_sizes:
+        for d in (1, 5, 9):
+            combos = [("TrefethenCC", og.TrefethenCC, og.ClenshawCurtis, (n, d)), ("TrefethenGC2", og.TrefethenGC2, og.GaussChebyshevType2, (n, d))]
+            bname, bcls = general_bases[(n + d) % len(general_bases)]
+            combos.append((f"TrefethenGeneral[{bname}]", og.TrefethenGeneral, bcls, (n, bcls, d)))
+            coefs = asin_taylor_map(d)
+            for tname, tcls, bcls2, a in combos:
+                g = build(tcls, *a)
+                b = build(bcls2, n)
+                args = f"{n}, d={d}"
+                cname = tname.split("[")[0]
+                if not check_shape(cname, f"{args}" + (f", {tname}" if "[" in tname else ""), g, n):
+                    continue
+                f, df = {1: (lambda x: x, lambda x: 1.0 + 0 * x), 5: (og._g2, og._derg2), 9: (og._g3, og._derg3)}[d]
+                # composition tie: exact float equality with the leaf functions applied to the base grid
+                ctx.case(("compose", tname, n, d))
+                if not (np.array_equal(g.points, f(b.points)) and np.array_equal(g.weights, df(b.points) * b.weights if d != 1 else b.weights)):
+                    rep.add(n, "corr_trefethen_compose", f"{tname}({args}):compose", None,
+                            f"{tname}({args}) is not leaf(base.points), dleaf(base.points) * base.weights with the modelled leaves", {"reproduce": f"{tname}({args})"}, found=False)
+                # property oracle: normalised Taylor polynomial of arcsin of degree d and its derivative
+                for k in range(n):
+                    xb = Fraction(float(b.points[k]))
+                    px = sum(c * xb ** (2 * j + 1) for j, c in enumerate(coefs))
+                    dx = sum(c * (2 * j + 1) * xb ** (2 * j) for j, c in enumerate(coefs))
+                    wexp = dx * Fraction(float(b.weights[k]))
+                    if abs(Fraction(float(g.points[k])) - px) > Fraction(1, 10 ** 12) or abs(Fraction(float(g.weights[k])) - wexp) > Fraction(1, 10 ** 11) * (1 + abs(wexp)):
+                        rep.add(n, "subst_trefethen_poly", f"{tname}({args}):{k}", [float(g.points[k]), float(g.weights[k])],
+                                f"{tname}({args}): node/weight {k} = {g.points[k]!r}, {g.weights[k]!r}; arcsin-Taylor map of degree {d} gives {float(px)!r}, {float(wexp)!r}",
+                                {"rule": tname, "args": args, "k": k, "expected": [float(px), float(wexp)], "kind": "trefethen"})
+                # leaf translation validation at the float arguments actually used
+                if d != 1:
+                    for k in range(n):
+                        x = float(b.points[k])
+                        for fname, fn in (("g2", og._g2), ("derg2", og._derg2)) if d == 5 else (("g3", og._g3), ("derg3", og._derg3)):
+                            if (fname, x) not in leaf_pts:
+                                leaf_pts.add((fname, x))
+                                leaf_case(fname, "", x, float(fn(np.array([x]))[0]), "ev; fin", rule="_" + fname, n=n, k=k, what="leaf", args=repr(x))
+                                ctx.case(("leaf", fname, x))
+            if d != 1:
+                g = build(og.TrefethenCC, n, d)
+                for k in range(n):
+                    case(goal_close(f"pts_TrefethenCC {d} {n} {k}", g.points[k]), "ev; fin", rule="TrefethenCC", n=n, k=k, what="points", args=f"{n}, {d}")
+                    case(goal_close(f"wts_TrefethenCC {d} {n} {k}", g.weights[k]), "ev; fin", rule="TrefethenCC", n=n, k=k, what="weights", args=f"{n}, {d}")
+                    ctx.case(("tie", "TrefethenCC", n, d, k), traces=2)
+        # strip maps
+        rhos = [1.1] + ([dyadic(rng, 1.05, 2.0, 5)] if (not ctx.quick or n in (3, 8)) else [])
+        for rho in rhos:
+            gm = gstrip_mp(m.mpf(rho))
+            combos = [("TrefethenStripCC", og.TrefethenStripCC, og.ClenshawCurtis, (n, rho)), ("TrefethenStripGC2", og.TrefethenStripGC2, og.GaussChebyshevType2, (n, rho))]
+            bname, bcls = general_bases[n % len(general_bases)]
+            combos.append((f"TrefethenStripGeneral[{bname}]", og.TrefethenStripGeneral, bcls, (n, bcls, rho)))
+            for tname, tcls, bcls2, a in combos:
+                g = build(tcls, *a)
+                b = build(bcls2, n)
+                args = f"{n}, rho={rho!r}"
+                cname = tname.split("[")[0]
+                if not check_shape(cname, args + (f", {tname}" if "[" in tname else ""), g, n):
+                    continue
+                ctx.case(("compose", tname, n, rho))
+                if not (np.array_equal(g.points, og._gstrip(rho, b.points)) and np.array_equal(g.weights, og._dergstrip(rho, b.points) * b.weights)):
+                    rep.add(n, "corr_trefethen_compose", f"{tname}({args}):compose", None,
+                            f"{tname}({args}) is not _gstrip(rho, base.points), _dergstrip(rho, base.points) * base.weights", {"reproduce": f"{tname}({args})"}, found=False)
+                for k in range(n):
+                    s = float(b.points[k])
+                    sm = m.mpf(s)
+                    x_ref = gm(sm)
+                    if abs(s) == 1.0:
+                        m.mp.dps = 100
+                        eps = m.mpf(10) ** -40
+                        d_ref = (gm(sm) - gm(sm - m.sign(sm) * eps)) / (m.sign(sm) * eps)
+                        m.mp.dps = 50
+                        dtol = 1e-7
+                    else:
+                        d_ref = m.diff(gm, sm, h=m.mpf(10) ** -20 * max(1e-6, 1 - abs(s)))
+                        dtol = 1e-8
+                    w_ref = d_ref * m.mpf(float(b.weights[k]))
+                    if abs(m.mpf(float(g.points[k])) - x_ref) > 1e-10 or abs(m.mpf(float(g.weights[k])) - w_ref) > dtol * (1 + abs(w_ref)):
+                        rep.add(n, "subst_trefethen_strip", f"{tname}({args}):{k}", [float(g.points[k]), float(g.weights[k])],
+                                f"{tname}({args}): node/weight {k} = {g.points[k]!r}, {g.weights[k]!r}; strip map and its derivative give {float(x_ref)!r}, {float(w_ref)!r}",
+                                {"rule": tname, "args": args, "k": k, "expected": [float(x_ref), float(w_ref)], "kind": "strip"})
+                    if ("gstrip", rho, s) not in leaf_pts:
+                        leaf_pts.add(("gstrip", rho, s))
+                        leaf_case("gstrip", rl(rho) + " ", s, float(og._gstrip(rho, np.array([s]))[0]), strip_tactic(s, "g"), rule="_gstrip", n=n, k=k, what="leaf", args=f"{rho!r}, {s!r}")
+                        leaf_case("dergstrip", rl(rho) + " ", s, float(og._dergstrip(rho, np.array([s]))[0]), strip_tactic(s, "d"), rule="_dergstrip", n=n, k=k, what="leaf", args=f"{rho!r}, {s!r}")
+                        ctx.case(("leaf", "strip", rho, s), traces=2)
+    # random leaf arguments (incl. one inside the end-point mask of _dergstrip)
+    for _ in range(6 if ctx.quick else 30):
+        x = dyadic(rng, -1.0, 1.0, 20)
+        for fname, fn in (("g2", og._g2), ("derg2", og._derg2), ("g3", og._g3), ("derg3", og._derg3)):
+            leaf_case(fname, "", x, float(fn(np.array([x]))[0]), "ev; fin", rule="_" + fname, n=0, k=0, what="leaf", args=repr(x))
+        rho = dyadic(rng, 1.05, 3.0, 6)
+        if abs(x) < 1:
+            leaf_case("gstrip", rl(rho) + " ", x, float(og._gstrip(rho, np.array([x]))[0]), strip_tactic(x, "g"), rule="_gstrip", n=0, k=0, what="leaf", args=f"{rho!r}, {x!r}")
+            leaf_case("dergstrip", rl(rho) + " ", x, float(og._dergstrip(rho, np.array([x]))[0]), strip_tactic(x, "d"), rule="_dergstrip", n=0, k=0, what="leaf", args=f"{rho!r}, {x!r}")
+    for s in (1.0 - 2.0 ** -30, -(1.0 - 2.0 ** -28)):
+        leaf_case("dergstrip", rl(1.25) + " ", s, float(og._dergstrip(1.25, np.array([s]))[0]), strip_tactic(s, "d"), rule="_dergstrip", n=0, k=0, what="leaf", args=f"1.25, {s!r}")
+
+    mark('trefethen')
+    # ================================================================== model vs implementation inside Coq
+    nshard = 16 if ctx.quick else 32
+    order = sorted(range(len(cases)), key=lambda i: (i % nshard, i))  # spread the heavy rules over all shards
+    bad_p = ctx.coq_tactic_cases("C01_cases", header(defs), [cases[i] for i in order], shard=max(20, math.ceil(len(cases) / nshard)), timeout=1500)
+    bad = sorted(order[j] for j in bad_p)
+    ctx.cov["interval_cases"] = len(cases)
+    mark('interval')
+    ctx.cov['stage_seconds'] = tm
+    seen = set()
+    for i in bad:
+        mt = meta[i]
+        tag = (mt["rule"], mt["args"], mt["what"])
+        if tag in seen:
+            continue
+        seen.add(tag)
+        if mt["what"] == "leaf":
+            rep.add(0, f"corr_leaf{mt['rule']}", f"leaf:{mt['rule']}({mt['args']})", None,
+                    f"translated leaf {mt['rule']} is not within 1e-9 of the implementation at ({mt['args']})", {"coq_goal": cases[i][0][:400]}, found=False)
+        else:
+            rep.add(mt["n"], f"corr_{mt['rule']}", f"model:{mt['rule']}({mt['args']}):{mt['what']}:{mt['k']}", None,
+                    f"{mt['rule']}({mt['args']}).{mt['what']}[{mt['k']}] is not within 1e-9 of the model value (hand model no longer describes the code)",
+                    {"coq_goal": cases[i][0][:400], "rule": mt["rule"], "args": mt["args"]}, found=False)
+
+    rep.flush()
+    ctx.sample({"rule": "ClenshawCurtis", "n": 7, "weights": [float(x) for x in build(og.ClenshawCurtis, 7).weights]})
+    ctx.sample({"rule": "FejerFirst", "n": 3, "sum w x^2": float((build(og.FejerFirst, 3).weights * build(og.FejerFirst, 3).points ** 2).sum()), "exact": 2 / 3})
+    ctx.sample({"rule": "FejerSecond", "n": 3, "sum w x^2": float((build(og.FejerSecond, 3).weights * build(og.FejerSecond, 3).points ** 2).sum()), "exact": 2 / 3})
+    ctx.cov["rule"] = (
+        "tie: every node and every weight of every rule class at every size n = 2..12 (odd sizes for the odd-only rules; thorough adds "
+        "13,16,17,24,25,33,40,41,59,60) is enclosed by `interval` within 1e-9(1+|y|) of the Coq model value; extra parameters "
+        "(alpha, delta, h, rho) are random dyadics plus the defaults, d in {1,5,9}; library arrays (leggauss, roots_chebyu, roots_genlaguerre) "
+        "are passed to the model as exact literals; Trefethen wrappers by exact float equality of the composition + leaf enclosures at the "
+        "arguments used; distinct = (rule, parameters, n, k, points|weights).  search: mpmath (50 digits) moments of the implementation's "
+        "float nodes/weights against the exact integrals for every degree up to the nominal one, n <= 24 (quick) / 64 (thorough); "
+        "node count, strict ascent, domain; weights against step * mpmath.diff of the documented node maps")
+    ctx.trusted += [
+        "translator props/c01_translate.py (on vlib/py2coq_real): scalar leaves, fail closed; validated by interval enclosures at the float arguments used",
+        "hand models coq/C01/C01_model.v of the array-level constructors, tied by interval correspondence at the sampled sizes (all k)",
+        "oracle hypothesis (validated each run, n <= 24/40, all degrees <= 2n-1, mpmath): np.polynomial.legendre.leggauss(n) is exact for x^d on [-1,1]",
+        "oracle hypothesis (validated each run): scipy.special.roots_chebyu(n) is exact for sqrt(1-x^2) x^d on [-1,1]",
+        "oracle hypothesis (validated each run): scipy.special.roots_genlaguerre(n, alpha) is exact for x^alpha exp(-x) x^d on [0,inf)",
+        "numpy.polynomial.chebyshev.chebgauss modelled in closed form (NumPy's implementation is the closed form); tied by interval correspondence",
+        f"tolerances: interval tie 1e-9(1+|y|); moments {TOL_REL} * sum|w_i g(x_i)| (measured rounding noise <= 3e-13 for n <= 64)",
+        "floating-point rounding inside the constructors is outside the model (theorems are over R)",
+    ]
+    ctx.assumptions += ["admissible n: >= 2 (odd where the constructor demands it); extra parameters in the ranges where all values stay finite in double precision",
+                        "Trefethen strip map: monotonicity and the end-point limit of _dergstrip are checked numerically only (theorem subst_rules_trefethen_strip_partial)"]
+
+
+# ====================================================================================================== replay
+def replay(rp):
+    import json
+
+    import grid.onedgrid as og
+
+    print(json.dumps({k: v for k, v in rp.items() if k != "traceback"}, indent=1, default=str)[:3000])
+    if rp.get("rule") in ("FejerFirst", "FejerSecond", "ClenshawCurtis", "Trapezoidal", "MidPoint", "Simpson", "GaussLegendre") and "degree" in rp and "n" in rp:
+        g = build(getattr(og, rp["rule"]), rp["n"])
+        s, S = moment(g.points, g.weights, rp["degree"])
+        e = int_legendre(rp["degree"])
+        print("sum w x^d =", float(s), " exact =", float(e))
+        return 1 if abs(s - e) > TOL_REL * S else 0
+    print("reproduce:", rp.get("reproduce", "(see text)"))
+    return 0
